@@ -28,9 +28,46 @@ from types import SimpleNamespace
 LABELS = ["a", "b", "c", "d", "e"]            # real keys of the pmap flavour (spec key i -> LABELS[i-1])
 SCAN_ROWS = [1.0, 2.0, 4.0, 8.0, 16.0]        # scanned values of k (scan flavour); keys are the row labels 0..n-1
 
+# Key menus.  The first two keys of every menu (spec keys 1 and 2) are SIBLINGS: distinct keys whose texts differ only
+# in sign / punctuation / white space -- the key -> stored-entry map has to keep them apart.
+PMAP_KEYS = {
+    "plain": ["a", "b", "c", "d", "e"],
+    "signed-tuples": [(0.5, -1), (0.5, 1), (-0.5, 1), (-0.5, -1), (1e-16, 2)],
+    "punct": ["a-b", "a b", "a+b", "a_b", "\u00e4\u00b7b"],
+    "mixed": [-1, "_1", 1, "+1", "1 "],
+    "slash": ["a/b", "a b", "a%2Fb", "a", "b"],
+    "equal-str": [1, "1", 2, "2", 3],          # str() of the siblings is EQUAL (known finding keys-with-equal-str)
+}
+# scan flavour: (k_in, k) per row; the keys parallelise sees are the row labels of the table
+SCAN_GRID = [(-2.0, 1.0), (2.0, 1.0), (2.0, 2.0), (-2.0, 2.0), (4.0, 1.0)]
+SCAN_MENUS = ("range", "signed-grid", "signed-column")
+
+
+def scan_table(menu: str, n: int):
+    """range: one column k, default labels 0..n-1.  signed-grid: columns k_in, k, labelled by its own values (tuple keys,
+    symmetric around zero -- what cartesian_product + MultiIndex.from_frame gives).  signed-column: one column k_in
+    labelled by its own values (-2.0, 2.0, ...)."""
+    import pandas as pd
+
+    if menu == "signed-grid":
+        df = pd.DataFrame({"k_in": [r[0] for r in SCAN_GRID[:n]], "k": [r[1] for r in SCAN_GRID[:n]]})
+        df.index = pd.MultiIndex.from_frame(df)
+        return df
+    if menu == "signed-column":
+        vals = [-2.0, 2.0, 4.0, -4.0, 8.0][:n]
+        return pd.DataFrame({"k_in": vals}, index=pd.Index(vals))
+    return pd.DataFrame({"k": SCAN_ROWS[:n]})
+
+
+def keys_of(flavour: str, menu: str | None, n: int) -> list:
+    if flavour == "pmap":
+        return list(PMAP_KEYS[menu or "plain"][:n])
+    return [lab for lab, _ in scan_table(menu or "range", n).iterrows()]
+
+
 _G = SimpleNamespace(
     active=False, cache_dir="", ctl="", plan={}, block=set(), killer=None, wait_for=[], kill="group",
-    logfd=-1, key=0, labels=[], fds={}, done_flags=True,
+    logfd=-1, key=0, labels=[], keys=[], fds={}, done_flags=True,
 )
 _REAL = SimpleNamespace(open=builtins.open, os_open=os.open, replace=os.replace, rename=os.rename)
 
@@ -239,7 +276,7 @@ def _open(file, mode="r", *a, **kw):
     f = _REAL.open(file, mode, *a, **kw)
     if _G.active and path is not None and set(mode) & set("wax+") and _under(path):
         ki = _G.key
-        _log("open", ki, final=os.path.basename(os.fspath(path)) == _default_cache().name_fn(_G.labels[ki - 1]) if ki else False)
+        _log("open", ki, final=os.path.basename(os.fspath(path)) == _default_cache().name_fn(_G.keys[ki - 1]) if ki else False)
         st = _stage(ki)
         if st and st["at"] == "writing" and st["off"] == 0:
             f.flush()
@@ -285,13 +322,17 @@ def install() -> None:
 # --------------------------------------------------------------------------------------------
 # the run itself
 # --------------------------------------------------------------------------------------------
+def scaled(k_in, s):
+    return k_in * s
+
+
 def scan_model(ver: int = 1):
     from mxlpy import Model, fns
 
     m = Model()
     m.add_variable("x", 1.0)
-    m.add_parameters({"k_in": 2.0 * ver, "k": 1.0})
-    m.add_reaction("v_in", fns.constant, args=["k_in"], stoichiometry={"x": 1.0})
+    m.add_parameters({"k_in": 2.0, "k": 1.0, "s": float(ver)})      # s: the "version" of the model
+    m.add_reaction("v_in", scaled, args=["k_in", "s"], stoichiometry={"x": 1.0})
     m.add_reaction("v_out", fns.mass_action_1s, args=["x", "k"], stoichiometry={"x": -1.0})
     return m
 
@@ -317,7 +358,8 @@ def run_once(job: dict):
         cache = Cache(tmp_dir=Path(job["cache_dir"]), name_fn=k_name, load_fn=k_load, save_fn=k_save)
     par = job["w"] > 0
     if job["flavour"] == "pmap":
-        inputs = [(LABELS[i], {"i": i + 1, "x": float(3 + i), "ver": job.get("ver", 1)}) for i in range(n)]
+        keys = keys_of("pmap", job.get("keys"), n)
+        inputs = [(keys[i], {"i": i + 1, "x": float(3 + i), "ver": job.get("ver", 1)}) for i in range(n)]
         out = parallelise(k_compute, inputs, cache=cache, parallel=par, max_workers=job["w"] if par else None,
                           disable_tqdm=True)
         return out, json.loads(json.dumps({"keys": [k for k, _ in out], "values": [v for _, v in out]}))
@@ -329,7 +371,7 @@ def run_once(job: dict):
 
     if par:
         multiprocessing.cpu_count = lambda: job["w"]  # the pool size scan.* reads (no public worker-count argument)
-    res = scan.steady_state(scan_model(job.get("ver", 1)), to_scan=pd.DataFrame({"k": SCAN_ROWS[:n]}), parallel=par,
+    res = scan.steady_state(scan_model(job.get("ver", 1)), to_scan=scan_table(job.get("keys") or "range", n), parallel=par,
                             cache=cache, worker=k_ss_worker)
     return res, _frames(res)
 
@@ -377,7 +419,8 @@ def child_main(job: dict) -> int:
     ctl = job["ctl"]
     _G.ctl = ctl
     _G.cache_dir = os.path.abspath(job.get("cache_dir") or "/nonexistent")
-    _G.labels = LABELS[: job["nk"]] if job["flavour"] == "pmap" else [str(i) for i in range(job["nk"])]
+    _G.keys = keys_of(job["flavour"], job.get("keys"), job["nk"])
+    _G.labels = [str(k) for k in _G.keys]
     _G.plan = {int(k): v for k, v in (job.get("plan") or {}).items()}
     _G.block = set(job.get("block") or [])
     _G.killer = job.get("killer")
@@ -511,12 +554,12 @@ def read_log(path: str) -> list[dict]:
     return out
 
 
-def observe_dir(cache_dir: str, flavour: str, nk: int) -> dict:
+def observe_dir(cache_dir: str, flavour: str, nk: int, menu: str | None = None) -> dict:
     """Class of every key's final path as the library's own default loader sees it; other files are listed."""
     from mxlpy.parallel import Cache
 
     c = Cache()
-    labels = LABELS[:nk] if flavour == "pmap" else list(range(nk))
+    labels = keys_of(flavour, menu, nk)
     files, sizes = [], []
     names = set()
     for lab in labels:
